@@ -129,22 +129,17 @@ Definition header_size_valid (h : N) : bool := (h mod 4 =? 0) && (h <=? ScionHea
 
 (** * 4. Data-plane paths, structurally (dataplane_path/*/model.rs) *)
 
-Definition infof := (N * N * N)%type.            (* flags, segment_id, timestamp *)
-Definition hopf := (N * N * N * N * N)%type.     (* flags, exp, cons_ingress, cons_egress, mac (48 bit) *)
-Definition seg := (infof * list hopf)%type.
-
-Inductive dppath :=
-| DP_Empty
-| DP_OneHop (i : infof) (h1 h2 : hopf)
-| DP_Std (curr_info curr_hop : N) (segs : list seg)
-| DP_Unsup (path_type : N) (data : bytes).
+(** The structural path is [Wire.Types.dp_path] ([DP_Std ci ch segs | DP_OneHop i h1 h2 |
+    DP_Empty | DP_Unsupported pt data], [segment = mkSeg info hops], [info_f = mkIF flags segid
+    ts], [hop_f = mkHF flags exp ingress egress mac]). *)
+Definition dppath := dp_path.
+Definition seg := segment.
 
 Definition FLAG_CONS_DIR : N := 1.
-Definition toggle_cons_dir (i : infof) : infof :=
-  let '(fl, sid, ts) := i in (N.lxor fl FLAG_CONS_DIR, sid, ts).
-Definition hop_cons_ingress (h : hopf) : N := let '(_, _, ing, _, _) := h in ing.
+Definition toggle_cons_dir (i : info_f) : info_f :=
+  mkIF (N.lxor (i_flags i) FLAG_CONS_DIR) (i_segid i) (i_ts i).
 Definition hop_count (segs : list seg) : N :=
-  fold_right (fun s acc => N.of_nat (length (snd s)) + acc) 0 segs.
+  fold_right (fun s acc => N.of_nat (length (s_hops s)) + acc) 0 segs.
 
 (** StandardPath::try_reverse *)
 Definition std_reverse (ci ch : N) (segs : list seg) : option dppath :=
@@ -153,9 +148,9 @@ Definition std_reverse (ci ch : N) (segs : list seg) : option dppath :=
   else if hop_count segs <=? ch then None
   else if seg_count <=? ci then None
   else
-    let segs1 := map (fun s : seg => (toggle_cons_dir (fst s), snd s)) segs in
+    let segs1 := map (fun s : seg => mkSeg (toggle_cons_dir (s_info s)) (s_hops s)) segs in
     let segs2 := rev segs1 in
-    let segs3 := map (fun s : seg => (fst s, rev (snd s))) segs2 in
+    let segs3 := map (fun s : seg => mkSeg (s_info s) (rev (s_hops s))) segs2 in
     let total_hops := hop_count segs3 in
     let new_hop_idx := (total_hops - ch) - 1 in
     let new_info_idx := (seg_count - ci) - 1 in
@@ -166,10 +161,10 @@ Definition dp_reverse (p : dppath) : option dppath :=
   match p with
   | DP_Std ci ch segs => std_reverse ci ch segs
   | DP_OneHop i h1 h2 =>
-    if hop_cons_ingress h2 =? 0 then None
-    else Some (DP_Std 0 0 [(toggle_cons_dir i, [h2; h1])])
+    if h_in h2 =? 0 then None
+    else Some (DP_Std 0 0 [mkSeg (toggle_cons_dir i) [h2; h1]])
   | DP_Empty => Some DP_Empty
-  | DP_Unsup _ _ => None
+  | DP_Unsupported _ _ => None
   end.
 
 (** * 5. Received packets: the SCMP view of a raw packet view (packet/view.rs) *)
@@ -416,7 +411,7 @@ Definition sim_reply_target (v : bytes) (p : dppath) : res (option (N * host_add
             s <- as_scmp v ;;
             match s with
             | None => Ok None
-            | Some sv => ty <- scmp_type sv ;; Ok (Some (if scmp_is_error ty then 1 else 0))
+            | Some sv => ty <- scmp_type sv ;; Ok (Some (if scmp_is_error ty || (ty <? SIM_ERROR_TYPE_BOUND) then 1 else 0))
             end
           else Ok (Some 0)) ;;
   match cls with
